@@ -82,8 +82,15 @@ def run_case_sym(hname, spec, opts):
         out['status'] = 'skipped'
         out['detail'] = str(e)
     except YastnError as e:
-        out['status'] = 'skipped_yastnerror'
-        out['detail'] = str(e)[:200]
+        if getattr(h, 'YASTNERROR_IS_SKIP', False):
+            out['status'] = 'skipped_yastnerror'
+            out['detail'] = str(e)[:200]
+        else:
+            # harnesses build inputs inside the documented domain and catch the YastnErrors they expect themselves:
+            # one that escapes means a valid input was rejected
+            cand = ctx._candidate('exception', 'YastnError', f'YastnError: {str(e)[:300]} @ {_short_tb(e)}')
+            out['status'] = 'candidate'
+            out['cand'] = cand
     except Exception as e:  # noqa -- any other exception on a well-formed input is a violation candidate
         cand = ctx._candidate('exception', type(e).__name__, f'{type(e).__name__}: {str(e)[:300]} @ {_short_tb(e)}')
         out['status'] = 'candidate'
@@ -137,8 +144,12 @@ def run_case_float(hname, spec, values, seed, expect=None):
         out['status'] = 'inconclusive'
         out['detail'] = str(e)
     except YastnError as e:
-        out['status'] = 'skipped_yastnerror'
-        out['detail'] = str(e)[:200]
+        if getattr(h, 'YASTNERROR_IS_SKIP', False):
+            out['status'] = 'skipped_yastnerror'
+            out['detail'] = str(e)[:200]
+        else:
+            out['status'] = 'violation'
+            out['cand'] = {'kind': 'exception', 'label': 'YastnError', 'detail': f'YastnError: {str(e)[:300]} @ {_short_tb(e)}'}
     except Exception as e:  # noqa
         out['status'] = 'violation'
         out['cand'] = {'kind': 'exception', 'label': type(e).__name__,
